@@ -27,6 +27,7 @@ AA = {
     'h0': '[$]C([H;0])O',
     'one': '[$][O;0.5;k=cap]',
     'sqlab': '[!a]CO[!b]',
+    'salt2': '[$]CC(=O)[O-].[NH4+]',  # polyatomic counter ion attached only by the zero-order bond
     'thio': '[$]c1sc([$])cc1',        # five-membered hetero-aromatic monomer (the sulfur takes no hydrogen)
     'pyrr': '[$]c1ccc[nH]1',
 }
